@@ -40,15 +40,18 @@ def run(ctx):
     M = q[0] * mass_sym("Fe") + q[1] * mass_sym("O") + q[2] * mass_sym("H")
     nz = [rho * M]
     got = spec.unpack(I.call(ns, [dict(comp)], {"density": rho, "wavelength": lam}))
-    main = {k: algebra.main_arm(got[k], nz) for k in spec.OUTPUTS}
+    try:
+        main = {k: algebra.main_arm(got[k], nz) for k in spec.OUTPUTS}
+    except AnalysisError:
+        main = dict(got)          # a guard that is not an exact zero test: analyse the guarded expression as a whole
 
     # R1 homogeneity
     for k in spec.OUTPUTS:
         want = -1 if k == "penetration" else 1
-        d = algebra.homogeneity(main[k], [rho], ctx.seed)
+        d = algebra.homogeneity(main[k], [rho], ctx.seed, nonzero=nz)
         ctx.check(d == want, "R1", f"{k} has degree {want} in the density",
                   f"{k} scales as density**{d}; expected degree {want}", cs, sample={"degree": str(d)})
-        d = algebra.homogeneity(main[k], list(q), ctx.seed)
+        d = algebra.homogeneity(main[k], list(q), ctx.seed, nonzero=nz)
         ctx.check(d == 0, "R1", f"{k} is unchanged when every count is multiplied by the same constant",
                   f"{k} has degree {d} in a common scale of the counts (depends on the size of the formula unit)", cs,
                   sample={"degree": str(d)})
